@@ -3,7 +3,6 @@ package legs
 import (
 	"fmt"
 	"math/rand"
-	"os"
 	"sort"
 	"strconv"
 	"strings"
@@ -823,9 +822,6 @@ func c17CheckMode(c *core.Ctx, cases []c17Case, knownOnly bool) []core.Outcome {
 		obs[i], o.Fail, o.Buckets = c17Oracle(cs)
 		if o.Fail != nil {
 			o.Buckets = append(o.Buckets, "oracle-fail:"+o.Fail.Key)
-			if f := os.Getenv("RV_KEYFILTER"); f != "" && !strings.Contains(o.Fail.Key, f) { // development aid
-				o.Fail = nil
-			}
 		}
 	}
 	if knownOnly {
@@ -834,9 +830,6 @@ func c17CheckMode(c *core.Ctx, cases []c17Case, knownOnly bool) []core.Outcome {
 				outs[i].Fail = nil // reported by leg G
 			}
 		}
-		return outs
-	}
-	if os.Getenv("RV_NODRIVER") != "" { // development aid: oracle only
 		return outs
 	}
 	res, err := c.RunDriver(lines)
